@@ -589,11 +589,14 @@ int main(int argc, char** argv)
     vx::Distinct errs_seen;
     std::mutex mu;
 
-    auto check_pairs = [&](const Triple& t, const std::vector<uint8_t>& res, const std::vector<uint32_t>& sets) {
+    struct Acc { std::atomic<uint64_t> live{0}; std::atomic<bool> any_ok{false}, any_fail{false}; };
+    // compares all covering pairs whose smaller set is sets[lo..hi)
+    auto check_range = [&](const Triple& t, const std::vector<uint8_t>& res, const std::vector<uint32_t>& sets, size_t lo, size_t hi, Acc& acc) {
         // res[F] = 0 (not evaluated) | 1 success | >1 failure. sets = evaluated flag sets.
         uint64_t live = 0;
         bool any_ok = false, any_fail = false;
-        for (uint32_t f : sets) {
+        for (size_t k = lo; k < hi; k++) {
+            const uint32_t f = sets[k];
             const bool okf = res[f] == 1;
             (okf ? any_ok : any_fail) = true;
             for (int b = 0; b < NBITS; b++) {
@@ -608,13 +611,23 @@ int main(int argc, char** argv)
                                   describe(t) + "\nflags_small " + flag_str(f) + "\nflags_big " + flag_str(g));
             }
         }
+        acc.live |= live;
+        if (any_ok) acc.any_ok = true;
+        if (any_fail) acc.any_fail = true;
+    };
+    auto check_finish = [&](const Triple& t, const std::vector<uint8_t>& res, Acc& acc) {
         // accepted under the standard flags => accepted under every consensus flag set
         if (res[STD] == 1)
             for (const auto& [c, where] : consensus)
                 if (res[c] > 1)
                     vx::violation("standard-implies-consensus|" + t.name + "|" + flag_str(c), "accepted under STANDARD flags but rejected (" + ScriptErrorString((ScriptError)(res[c] - 1)) + ") under the consensus flags of " + where + " {" + flag_str(c) + "}: " + describe(t), describe(t) + "\nflags_small " + flag_str(c) + "\nflags_big " + flag_str(STD));
-        live_mask |= live;
-        if (any_ok && any_fail) varying++;
+        live_mask |= acc.live.load();
+        if (acc.any_ok && acc.any_fail) varying++;
+    };
+    auto check_pairs = [&](const Triple& t, const std::vector<uint8_t>& res, const std::vector<uint32_t>& sets) {
+        Acc acc;
+        check_range(t, res, sets, 0, sets.size(), acc);
+        check_finish(t, res, acc);
     };
 
     std::atomic<bool> cut{false};
@@ -662,29 +675,58 @@ int main(int argc, char** argv)
     std::stable_sort(g_free.begin(), g_free.end(), [](const Triple& x, const Triple& y) { return (x.full * 2 + (x.full && x.heavy)) < (y.full * 2 + (y.full && y.heavy)); });
     uint64_t n_full = 0;
     for (const auto& t : g_free) n_full += t.full;
-    vx::par_for(g_free.size(), 1, [&](uint64_t lo, uint64_t hi, unsigned) {
+    const uint64_t n_light = g_free.size() - n_full;   // sorted: neighbourhood-only triples first
+    // (a) neighbourhood-only triples: one triple per work unit
+    vx::par_for(n_light, 1, [&](uint64_t lo, uint64_t hi, unsigned) {
         for (uint64_t i = lo; i < hi; i++) {
             if (vx::deadline_reached()) { cut = true; return; }
             const Triple& t = g_free[i];
             Evaluator ev(t);
             std::vector<uint8_t> res(NF, 0);
-            const std::vector<uint32_t>& sets = t.full ? all_valid : nbv;
-            for (uint32_t f : sets) res[f] = ev.eval(f);
-            // determinism: a second evaluation of a spread of flag sets must give the identical verdict and error
+            for (uint32_t f : nbv) res[f] = ev.eval(f);
             uint64_t n2 = 0;
-            for (size_t k = i % 7; k < sets.size(); k += 7, n2++) {
-                uint32_t f = sets[k];
+            for (size_t k = i % 7; k < nbv.size(); k += 7, n2++) {
+                uint32_t f = nbv[k];
                 uint8_t r2 = ev.eval(f);
                 if (r2 != res[f]) vx::violation("determinism|" + t.name, "two evaluations under {" + flag_str(f) + "} differ: " + ScriptErrorString((ScriptError)(res[f] - 1)) + " vs " + ScriptErrorString((ScriptError)(r2 - 1)) + ": " + describe(t), describe(t));
             }
-            check_pairs(t, res, sets);
+            check_pairs(t, res, nbv);
             std::set<uint8_t> es(res.begin(), res.end());
             for (uint8_t e : es) if (e) errs_seen.add((uint64_t)e);
-            E.evaluations += sets.size() + n2;
+            E.evaluations += nbv.size() + n2;
             done_free++;
-            if (t.full) done_full++;
         }
     });
+    // (b) full-space triples: one at a time, the flag space of each is split over the threads (a taproot-heavy triple would
+    //     otherwise occupy a single thread for ~20 s)
+    for (uint64_t i = n_light; i < g_free.size(); i++) {
+        if (vx::deadline_reached()) { cut = true; break; }
+        const Triple& t = g_free[i];
+        std::vector<uint8_t> res(NF, 0);
+        std::atomic<uint64_t> n2{0};
+        vx::par_for(all_valid.size(), 16384, [&](uint64_t lo, uint64_t hi, unsigned) {
+            Evaluator ev(t);
+            uint64_t m = 0;
+            for (uint64_t k = lo; k < hi; k++) res[all_valid[k]] = ev.eval(all_valid[k]);
+            // determinism: a second evaluation of every 7th flag set must give the identical verdict and error
+            for (uint64_t k = lo; k < hi; k++) {
+                if (k % 7 != i % 7) continue;
+                uint32_t f = all_valid[k];
+                uint8_t r2 = ev.eval(f); m++;
+                if (r2 != res[f]) vx::violation("determinism|" + t.name, "two evaluations under {" + flag_str(f) + "} differ: " + ScriptErrorString((ScriptError)(res[f] - 1)) + " vs " + ScriptErrorString((ScriptError)(r2 - 1)) + ": " + describe(t), describe(t));
+            }
+            n2 += m;
+        });
+        Acc acc;
+        vx::par_for(all_valid.size(), 16384, [&](uint64_t lo, uint64_t hi, unsigned) { check_range(t, res, all_valid, lo, hi, acc); });
+        check_finish(t, res, acc);
+        bool seen[256] = {};
+        for (uint32_t f : all_valid) seen[res[f]] = true;
+        for (int e = 1; e < 256; e++) if (seen[e]) errs_seen.add((uint64_t)e);
+        E.evaluations += all_valid.size() + n2.load();
+        done_free++;
+        done_full++;
+    }
     if (cut) E.exhaustive = false;
 
     E.distinct_nontrivial = varying.load();
